@@ -152,7 +152,7 @@ func GenesisChainConfig(conf *config.VBFTConfig, peers []*config.VBFTPeerInfo, h
 		Version:              1,
 		View:                 1,
 		N:                    k,
-		C:                    k / 3,
+		C:                    (k - 1) / 3,
 		BlockMsgDelay:        time.Duration(conf.BlockMsgDelay) * time.Millisecond,
 		HashMsgDelay:         time.Duration(conf.HashMsgDelay) * time.Millisecond,
 		PeerHandshakeTimeout: time.Duration(conf.PeerHandshakeTimeout) * time.Second,
